@@ -140,9 +140,10 @@ def program_sets(tier):
     """list of (label, generator) for the tier"""
     sets = [('N=1,K<=3', lambda: e2a.programs(1, 3)),
             ('N=2,K<=2,total<=3', lambda: e2a.programs(2, 2, total_ops=3)),
-            ('N=3,K<=1,core ops', lambda: e2a.programs(3, 1, rich=False))]
+            ('N=3,K<=1,core ops,one form', lambda: e2a.programs(3, 1, rich=False, forms=('a',)))]
     if tier == 'thorough':
-        sets += [('N=2,K<=2', lambda: e2a.programs(2, 2)),
+        sets += [('N=3,K<=1,core ops', lambda: e2a.programs(3, 1, rich=False)),
+                 ('N=2,K<=2', lambda: e2a.programs(2, 2)),
                  ('N=3,K<=2,total<=3,core ops', lambda: e2a.programs(3, 2, total_ops=3, rich=False))]
     return sets
 
